@@ -295,6 +295,11 @@ class Builtins:
             k = k.inner
         return self.ex.ok(SBool(validcid(k.t)), st)
 
+    def b_spec_is_ballot(self, args, kw, st, fr):
+        from .models import isBallot
+        self.ex.election_facts(st)
+        return self.ex.ok(SBool(isBallot(args[0].t)), st)
+
     def b_spec_scale_S(self, args, kw, st, fr):
         from .arith import SCALE, scale_facts
         scale_facts(st, self.ex)
@@ -307,13 +312,9 @@ class Builtins:
     def b_spec_whole(self, args, kw, st, fr):
         "whole(m): the integer k with m == V(k)  (defined when is_whole(m))"
         from .arith import SCALE, scale_facts
+        from .models import whole_of, whole_of_r
         m = args[0].t
-        key = ('whole', m.get_id())
-        k = st.ghost.get(key)
-        if k is None:
-            k = fresh_int('whole')
-            st.ghost[key] = k
-        return self.ex.ok(SInt(k), st)
+        return self.ex.ok(SInt(whole_of_r(m) if z3.is_real(m) else whole_of(m)), st)
 
     def b_spec_is_whole(self, args, kw, st, fr):
         from .arith import SCALE, scale_facts
@@ -390,10 +391,11 @@ class Builtins:
         "floor of a real-valued spec expression, as an Int"
         x = args[0].t
         key = ('floor', x.get_id())
-        q = st.ghost.get(key)
+        ent = st.ghost.get(key)
+        q = ent[0] if (ent is not None and ent[1].eq(x)) else None
         if q is None:
             q = fresh_int('floor')
-            st.ghost[key] = q
+            st.ghost[key] = (q, x)
             st.assume(z3.And(z3.ToReal(q) <= x, x < z3.ToReal(q) + 1))
             if self.ex.spec_pre is not None:
                 self.ex.spec_pre.assume(z3.And(z3.ToReal(q) <= x, x < z3.ToReal(q) + 1))
